@@ -20,7 +20,8 @@ RULE = ("data of size 1..300 from six families (floats over 12 decades with both
         "optionally nudged by one ulp; constant arrays and single elements) x (binsize>0 | nbin>=1, "
         "derived bin count <= 1e5) x min/max each absent / at a datum / strictly inside the data range / "
         "on a grid edge / outside / beyond all data (documented ValueError) x entry point "
-        "(histogram(rev=True) | Binner.dohist(rev=True)) x input container (ndarray, list). Every case "
+        "(histogram(rev=True) | Binner.dohist(rev=True)) x input container (ndarray, list, strided view, negative-stride "
+        "view, field of a record array, byte-swapped array). Every case "
         "runs the C engine and the Python engine. Non-trivial: >=2 non-empty bins and (a tie among "
         "counted data, or a datum exactly on a bin edge, or a limit that excludes data, or an empty "
         "interior bin). Distinct = distinct case JSON.")
@@ -155,7 +156,8 @@ def hist_cases(draw, entry, families):
     lim_int = draw(st.booleans())
     case = {"x": enc(vals), "dtype": dt, "family": family, "binsize": binsize, "nbin": nbin,
             "min": enc(vmin), "max": enc(vmax), "min_mode": min_mode, "max_mode": max_mode,
-            "entry": entry, "container": draw(st.sampled_from(["array", "array", "list"])),
+            "entry": entry, "container": draw(st.sampled_from(["array", "array", "list", "strided", "reversed-view",
+                                                                "record-field", "byteswapped"])),
             "lim_int": lim_int}
     return case
 
@@ -173,9 +175,30 @@ def _args(case):
     return x, vmin, vmax
 
 
+def _layout(container, x):
+    """The same 1-d values in another container / memory layout (all of them are '1-d data')."""
+    if container == "list":
+        return x.tolist() if x.dtype.str[1:] in ("f8", "i8") else x
+    if container == "strided":
+        buf = np.zeros(2 * x.size + 1, dtype=x.dtype)      # the gaps hold zeros, not data
+        v = buf[1::2]
+        v[...] = x
+        return v
+    if container == "reversed-view":
+        return np.ascontiguousarray(x[::-1])[::-1]
+    if container == "record-field":
+        rec = np.zeros(x.size, dtype=[("pad", "i2"), ("x", x.dtype), ("tail", "u1")])
+        rec["pad"] = 257
+        rec["x"] = x
+        return rec["x"]
+    if container == "byteswapped":
+        return x.astype(x.dtype.newbyteorder(">" if x.dtype.byteorder in "=<|" else "<"))
+    return x
+
+
 def _call(case, x, vmin, vmax):
     import esutil.stat as es
-    data = x.tolist() if case["container"] == "list" and x.dtype.str[1:] in ("f8", "i8") else x
+    data = _layout(case["container"], x)
     kw = {"min": vmin, "max": vmax}
     if case["nbin"] is not None:
         kw["nbin"] = case["nbin"]
